@@ -186,7 +186,7 @@ def gen_raft(r, style=None, maxops=30):
             ops.append(["crash"])
             leader_self = False
         elif k < 0.94 and style in ("snap", "mixed", "crash", "plain"):
-            ops.append(["snapin", r.choice([1, 2, 3, 5, 50])])
+            ops.append(["snapin", r.choice([1, 2, 3, 5, 50]), r.choice([0, 0, 1, 2, 3])])
         elif style in ("leader", "mixed", "plain"):
             t = fresh()
             local = 1 if r.random() < 0.6 else 0
